@@ -79,6 +79,20 @@ func crashTemplates(r *core.Rand) []*crashHist {
 		kgInsert("a", 30, 10),
 		&proto.Stmt{Kind: "update", Table: "a", Sets: []proto.SetItem{{Col: "g", Val: intv(7)}}, Where: model.Cmp(">", model.ColOp("k"), model.LitOp(intv(25)))},
 		kgTable("z"), kgInsert("z", 0, 3), kgInsert("a", 40, 5))
+	// T7: a catalog that is itself a two-level tree (more than 7 tables), then
+	// root moves of several tables: the catalog records of those moves point
+	// into the catalog's leaves
+	{
+		var st []*proto.Stmt
+		for i := 0; i < 9; i++ {
+			st = append(st, kgTable(fmt.Sprintf("m%d", i)))
+		}
+		for i := 0; i < 9; i += 2 {
+			st = append(st, kgInsert(fmt.Sprintf("m%d", i), 0, 8))
+		}
+		st = append(st, kgInsert("m8", 8, 2), kgInsert("m0", 8, 1), kgInsert("m4", 8, 3), kgInsert("m1", 0, 11), kgInsert("m8", 10, 1), kgTable("m9"), kgInsert("m2", 8, 2), kgInsert("m9", 0, 10))
+		mk("many-tables-root-moves", st...)
+	}
 	return out
 }
 
@@ -86,6 +100,9 @@ func buildCrashHist(c *core.Ctx, idx int) *crashHist {
 	r := core.NewRand(core.SubSeed(c.Seed, "CRASHHIST", idx))
 	h := gen.NewHist(r, false)
 	h.MaxTables = r.Range(1, 3)
+	if idx%5 == 4 {
+		h.MaxTables = r.Range(8, 12) // the catalog becomes a two-level tree
+	}
 	ch := &crashHist{idx: idx, name: "random"}
 	n := r.Range(10, 60)
 	for i := 0; i < n; i++ {
